@@ -64,9 +64,15 @@ func (c *Ctx) add(rule, fn, what string, st Status, site, detail string) {
 	c.Obs = append(c.Obs, Obligation{Key: key, Rule: rule, Fn: fn, What: what, Status: st, Site: site, Detail: detail})
 }
 
-func (c *Ctx) OK(rule, fn, what, site, detail string)   { c.add(rule, fn, what, Discharged, site, detail) }
-func (c *Ctx) Fail(rule, fn, what, site, detail string) { c.add(rule, fn, what, Violated, site, detail) }
-func (c *Ctx) Und(rule, fn, what, site, detail string)  { c.add(rule, fn, what, Undecided, site, detail) }
+func (c *Ctx) OK(rule, fn, what, site, detail string) {
+	c.add(rule, fn, what, Discharged, site, detail)
+}
+func (c *Ctx) Fail(rule, fn, what, site, detail string) {
+	c.add(rule, fn, what, Violated, site, detail)
+}
+func (c *Ctx) Und(rule, fn, what, site, detail string) {
+	c.add(rule, fn, what, Undecided, site, detail)
+}
 
 // Check records discharged/violated from a boolean.
 func (c *Ctx) Check(ok bool, rule, fn, what, site, detail string) bool {
